@@ -53,10 +53,15 @@ impl Case {
 			.reverse(self.reverse)
 			.playback_rate(PlaybackRate(self.rate));
 		if let Some((a, b)) = self.lp {
-			st = st.loop_region(Region {
-				start: PlaybackPosition::Samples(a),
-				end: EndPosition::Custom(PlaybackPosition::Samples(b)),
-			});
+			// (a loop that runs to the end of the sound is given, every other time, in its open-ended form: `..` / `a..`)
+			let to_end = b == self.len() && (a + self.total + self.start) % 2 == 0;
+			st = if to_end && a == 0 {
+				st.loop_region(..)
+			} else if to_end {
+				st.loop_region(Region { start: PlaybackPosition::Samples(a), end: EndPosition::EndOfAudio })
+			} else {
+				st.loop_region(Region { start: PlaybackPosition::Samples(a), end: EndPosition::Custom(PlaybackPosition::Samples(b)) })
+			};
 		}
 		let mut d = StaticSoundData { sample_rate: self.sr_sound, frames: frames.into(), settings: st, slice: None };
 		// the slice is given in one of the equivalent ways: the field, `.slice(a..b)`, a second `.slice()` replacing an earlier one
